@@ -13,9 +13,10 @@ are not inputs (--dynamic-list, --export-dynamic-symbol-list, --retain-symbols-f
 
 Oracle (round trip, the statement): run 0 `wild <args> -o out1` must succeed (else the command is
 outside the domain); run 1 the same with WILD_SAVE_DIR=<d> must succeed and give the same bytes;
-run 2 `OUT=out2 <d>/run-with <same wild binary>` must exit 0 and out2 must be byte-identical to
-out1; then every original input is moved away and run 2 is repeated (out3): the bundle must be
-self-contained.
+run 2 `OUT=rep2/out1 ./<d>/run-with <same wild binary>` must exit 0 and its output must be
+byte-identical to out1 (same basename: a shared object's base version definition is named after
+the output file, for GNU ld too); then every original input is moved away and run 2 is repeated
+(rep3/out1): the bundle must be self-contained.
 
 SAFETY: metacharacters are only ever followed by words from a fixed vocabulary that names no
 command, builtin or file; the replay runs with `env -i`, PATH = a directory holding only symlinks
@@ -366,6 +367,8 @@ class C24(Check):
 
         # Run 0: plain link (domain check + determinism reference).
         r0 = hist.wild(with_out("out1"), cwd=w)
+        if r0.timed_out:     # loaded machine: the plain link is idempotent, retry once
+            r0 = hist.wild(with_out("out1"), cwd=w, timeout=400)
         if r0.timed_out:
             raise Inconclusive("wild timed out")
         if r0.rc != 0:
@@ -398,6 +401,8 @@ class C24(Check):
         # Run 1: with the save directory.
         r1 = hist.wild(with_out("out1"), cwd=w, env_extra={"WILD_SAVE_DIR": sd})
         if r1.timed_out:
+            r1 = hist.wild(with_out("out1"), cwd=w, env_extra={"WILD_SAVE_DIR": sd}, timeout=400)
+        if r1.timed_out:
             raise Inconclusive("wild timed out")
         if r1.rc != 0:
             raise Violation("save-dir-breaks-link:" + sig("save"), f"the link succeeds without WILD_SAVE_DIR but fails with it: "
@@ -420,9 +425,9 @@ class C24(Check):
             # Always invoked as ./<dir>/run-with (a leading '+', '-' or '@' of the directory name would
             # otherwise be taken as an option by bash / as a response file by wild: not a quoting matter).
             argv = ["./" + (sd[2:] if sd.startswith("./") else sd) + "/run-with", core.WILD]
-            r = hist.run_all(argv, cwd=w, env=env, timeout=60)
+            r = hist.run_all(argv, cwd=w, env=env, timeout=120)
             if r.timed_out:   # loaded machine: one retry before giving up
-                r = hist.run_all(argv, cwd=w, env=env, timeout=180)
+                r = hist.run_all(argv, cwd=w, env=env, timeout=360)
             if r.timed_out:
                 raise Inconclusive("replay timed out")
             p = os.path.join(w, out_name)
